@@ -37,6 +37,9 @@ def main():
                     continue
                 md = os.path.join(wt, 'mut%d' % k)
                 shutil.copytree(sd, md, dirs_exist_ok=True)
+                dc = os.path.join(md, 'demo.c')
+                txt_ = open(dc).read().replace('/tmp/wt/%s' % pid, wt)
+                open(dc, 'w').write(txt_)
                 meta = dict(property=pid, seed='%s-%d' % (pid, k), notes=open(os.path.join(sd, 'notes.txt')).read() if os.path.exists(os.path.join(sd, 'notes.txt')) else '')
                 rc, out = sh('git apply %s/patch.diff' % md, cwd=wt)
                 meta['applies'] = rc == 0
